@@ -152,19 +152,39 @@ def check_case(run, case, tier='quick'):
             run.case(h(['cli', case['spec']['base'], case['flags'], n]))
         # ---- a standard output that cannot represent every guess (a consumer on an ASCII / Latin-1 pipe).  Today such a guess is silently left out; whatever
         # the tool does with it, what it does write is guesses only, in the order of the stream, and every representable guess is there
-        if any(not g.isascii() for g in Ug) and rng.random() < 0.5:
-            oenc = rng.choice(['ascii', 'latin-1'])
+        configs = []
+        if any(not g.isascii() for g in Ug) and (case.get('legacy_fixed') or rng.random() < 0.5):
+            # PYTHONIOENCODING=<encoding>[:<error handler>]
+            configs = [(rng.choice(['ascii', 'latin-1']), rng.choice([None, None, 'replace', 'backslashreplace', 'xmlcharrefreplace', 'ignore']))]
+            if case.get('legacy_fixed'):
+                configs = [('ascii', None), ('ascii', rng.choice(['replace', 'backslashreplace', 'xmlcharrefreplace', 'ignore']))]
+        for oenc, handler in configs:
             def fits(g):
                 try:
                     g.encode(oenc); return True
                 except UnicodeEncodeError:
                     return False
-            out, err, rc, to = cli.run_cli('pcfg_guesser.py', ['-r', name, '-s', sn + 'enc'] + fl, stdin_mode='devnull', env={'PYTHONIOENCODING': oenc})
+            nlim = rng.choice([None, max(1, len(Ug) // 2), max(1, len(Ug) - 1)])
+            out, err, rc, to = cli.run_cli('pcfg_guesser.py', ['-r', name, '-s', sn + 'enc'] + fl + ([] if nlim is None else ['-n', str(nlim)]), stdin_mode='devnull',
+                                           env={'PYTHONIOENCODING': oenc + (':' + handler if handler else '')})
             run.ev('cli_runs'); run.ev('narrow_stdout_runs')
-            if not to:
+            if not to and handler:
+                # the user chose how unrepresentable characters are rendered: one line per guess, each guess rendered by that handler, --limit exact
+                got = out.decode(oenc, 'replace').split('\n')[:-1] if out else []
+                want = [g.encode(oenc, handler).decode(oenc) for g in (Ug if nlim is None else Ug[:nlim])]
+                if got != want:
+                    k = next((i for i, (a_, b_) in enumerate(zip(got, want)) if a_ != b_), min(len(got), len(want)))
+                    run.violation(f'stdout {oenc}:{handler}' + ('' if nlim is None else f' --limit {nlim}') + f': {len(got)} lines written, expected {len(want)} (every guess, rendered by the error handler '
+                                  f'the user configured); first difference at line {k}', case, observed=got[max(0, k - 2):k + 3], expected=want[max(0, k - 2):k + 3]); return
+            elif not to:
                 got = out.decode(oenc, 'replace').split('\n')[:-1] if out else []
                 want = [g for g in Ug if fits(g)]
-                if got != want:
+                alt = None
+                if nlim is not None:
+                    # unrepresentable guesses are left out; whether they count towards the limit is not the property's business: accept the representable part
+                    # of the first N guesses (today) as well as the first N representable guesses
+                    want, alt = [g for g in Ug[:nlim] if fits(g)], [g for g in Ug if fits(g)][:nlim]
+                if got != want and got != alt:
                     stream = Counter(Ug)
                     foreign = [g for g in got if g not in stream][:4]
                     k = next((i for i, (a_, b_) in enumerate(zip(got, want)) if a_ != b_), min(len(got), len(want)))
